@@ -71,9 +71,10 @@ Qed.
 Lemma Inv_grant_tokens s stored with_rt :
   Inv s -> r_id stored < next_rid s ->
   no_access_rid (st s) (r_id stored) -> no_active_refresh_rid (st s) (r_id stored) -> no_active_code_rid (st s) (r_id stored) ->
+  no_device_rid (st s) (r_id stored) ->
   Inv (fst (grant_tokens s stored with_rt)).
 Proof.
-  intros I Hrid Hna Hnr Hnc. unfold grant_tokens.
+  intros I Hrid Hna Hnr Hnc Hnd. unfold grant_tokens.
   destruct (mint s KAccess (r_id stored)) as [ka s2] eqn:E2.
   assert (I2 : Inv s2) by (replace s2 with (snd (mint s KAccess (r_id stored))) by (now rewrite E2); now apply Inv_mint).
   assert (Hka : ka = next_key s) by (unfold mint in E2; congruence).
@@ -89,14 +90,15 @@ Proof.
     destruct Hs3 as [Hst3 [Hkr Ho3]].
     cbn [fst].
     assert (Ia : Inv (set_store s3 (create_access (st s3) ka stored))).
-    { apply Inv_create_access; [assumption| |rewrite Hst3, Hst2; assumption|rewrite Hst3, Hst2; assumption].
+    { apply Inv_create_access; [assumption| |rewrite Hst3, Hst2; assumption|rewrite Hst3, Hst2; assumption|rewrite Hst3, Hst2; assumption].
       rewrite Ho3, Ho2, upd_neq by lia. subst ka. apply upd_eq. }
     assert (Ir : Inv (set_store s3 (create_refresh (create_access (st s3) ka stored) kr stored))).
     { change (set_store s3 (create_refresh (create_access (st s3) ka stored) kr stored))
         with (set_store (set_store s3 (create_access (st s3) ka stored))
                         (create_refresh (st (set_store s3 (create_access (st s3) ka stored))) kr stored)).
-      apply Inv_create_refresh; [assumption| | |].
+      apply Inv_create_refresh; [assumption| | | |].
       - cbn. rewrite Ho3, Hkr. apply upd_eq.
+      - cbn. rewrite Hst3, Hst2. assumption.
       - cbn. rewrite Hst3, Hst2. assumption.
       - cbn. rewrite Hst3, Hst2. assumption. }
     apply Inv_log_add; [assumption|].
@@ -105,7 +107,7 @@ Proof.
     + rewrite Ho3, Hkr. apply upd_eq.
   - cbn [fst].
     assert (Ia : Inv (set_store s2 (create_access (st s2) ka stored))).
-    { apply Inv_create_access; [assumption| |rewrite Hst2; assumption|rewrite Hst2; assumption].
+    { apply Inv_create_access; [assumption| |rewrite Hst2; assumption|rewrite Hst2; assumption|rewrite Hst2; assumption].
       rewrite Ho2. subst ka. apply upd_eq. }
     apply Inv_log_add; [assumption|].
     intros e [<-|[]]; cbn. rewrite Ho2. subst ka. apply upd_eq.
@@ -117,11 +119,12 @@ Proof.
   destruct (fresh_rid s) as [rid s1] eqn:E1.
   destruct (fresh_rid_spec _ _ _ E1) as [Hrid [Hs1 [Hst1 [Hnr1 _]]]].
   assert (I1 : Inv s1) by (rewrite Hs1; apply Inv_fresh_rid; assumption).
-  apply Inv_grant_tokens; [assumption| | | |]; rewrite Hmk, ?Hst1.
+  apply Inv_grant_tokens; [assumption| | | | |]; rewrite Hmk, ?Hst1.
   - lia.
   - intros k r H. destruct (inv_access_fresh s _ _ I H). lia.
   - intros k r H. destruct (inv_refresh_fresh s _ _ _ I H). lia.
   - intros k r H. destruct (inv_code_fresh s _ _ _ I H). lia.
+  - intros k b r H. destruct (inv_owner_fresh s I _ _ _ (inv_owner_device s I _ _ _ H)). lia.
 Qed.
 
 (* ------------------------------------------------------------------ PKCE touches only its own table *)
@@ -148,10 +151,9 @@ Qed.
 Lemma Inv_fail s e : Inv s -> Inv (fst (fail s e)).
 Proof. auto. Qed.
 
-Lemma Inv_authorize cfg s a : Inv s -> Inv (fst (authorize cfg s a)).
+Lemma Inv_authorize_core cfg s cl a : Inv s -> Inv (fst (authorize_core cfg s cl a)).
 Proof.
-  intros I. unfold authorize.
-  destruct (clients s (az_client a)) as [cl|]; [|assumption].
+  intros I. unfold authorize_core.
   destruct (negb (scopes_ok cfg cl (az_scopes a))); [assumption|].
   destruct (negb (aud_ok cfg (cl_aud cl) (az_aud a))); [assumption|].
   destruct (fresh_rid s) as [rid s1] eqn:E1.
@@ -162,19 +164,112 @@ Proof.
   assert (I2 : Inv s2) by (rewrite Hs2; apply Inv_mint; [assumption|lia]).
   match goal with |- context [create_code _ k ?r] => set (rec := r) end.
   assert (I3 : Inv (set_store s2 (create_code (st s2) k rec))).
-  { apply Inv_create_code; [assumption| | | | |].
+  { apply Inv_create_code; [assumption| | | | | |].
     - rewrite Ho2, Hk. apply upd_eq.
     - rewrite Hst2, Hst1. destruct (codes (st s) k) as [[b r]|] eqn:E; [|reflexivity].
       destruct (inv_code_fresh s _ _ _ I E). lia.
     - rewrite Hst2, Hst1. cbn. intros k' b' r' H. destruct (inv_code_fresh s _ _ _ I H). lia.
     - rewrite Hst2, Hst1. cbn. intros k' r' H. destruct (inv_access_fresh s _ _ I H). lia.
-    - rewrite Hst2, Hst1. cbn. intros k' b' r' H. destruct (inv_refresh_fresh s _ _ _ I H). lia. }
+    - rewrite Hst2, Hst1. cbn. intros k' b' r' H. destruct (inv_refresh_fresh s _ _ _ I H). lia.
+    - rewrite Hst2, Hst1. cbn. intros k' b' r' H. destruct (inv_owner_fresh s I _ _ _ (inv_owner_device s I _ _ _ H)). lia. }
   destruct (pkce_validate cfg (az_challenge a) (az_method a) cl); [assumption|].
   cbn [fst]. apply Inv_log_add.
   - destruct (String.eqb (az_challenge a) "" && String.eqb (az_method a) ""); [assumption|].
     apply (Inv_set_pkce _ _ I3).
   - intros e [<-|[]]. cbn.
     destruct (String.eqb (az_challenge a) "" && String.eqb (az_method a) ""); cbn; rewrite Ho2, Hk; apply upd_eq.
+Qed.
+
+Lemma Inv_authorize cfg s a : Inv s -> Inv (fst (authorize cfg s a)).
+Proof.
+  intros I. unfold authorize. destruct (cf_par_enforced cfg); [assumption|].
+  destruct (clients s (az_client a)) as [cl|]; [|assumption]. now apply Inv_authorize_core.
+Qed.
+
+Lemma Inv_authorize_par cfg s cp uri a : Inv s -> Inv (fst (authorize_par cfg s cp uri a)).
+Proof.
+  intros I. unfold authorize_par.
+  destruct (key_of s uri) as [k|]; [|assumption].
+  destruct (par (st s) k) as [pr|]; [|assumption].
+  pose proof (Inv_set_par s (upd (par (st s)) k None) I) as I1.
+  destruct (negb (Nat.eqb cp (r_client pr))); [exact I1|].
+  apply Inv_authorize_core. exact I1.
+Qed.
+
+Lemma Inv_push cfg s auth bc ru a : Inv s -> Inv (fst (push cfg s auth bc ru a)).
+Proof.
+  intros I. unfold push.
+  destruct auth as [c|]; [|assumption]. destruct (clients s c); [|assumption].
+  destruct ru; [assumption|].
+  destruct (clients s _) as [cl|]; [|assumption].
+  destruct (negb (scopes_ok cfg cl (az_scopes a))); [assumption|].
+  destruct (negb (aud_ok cfg (cl_aud cl) (az_aud a))); [assumption|].
+  destruct (fresh_rid s) as [rid s1] eqn:E1.
+  destruct (fresh_rid_spec _ _ _ E1) as [Hrid [Hs1 [Hst1 [Hnr1 [Hnk1 [Ho1 Hl1]]]]]].
+  destruct (mint s1 KPar rid) as [k s2] eqn:E2.
+  destruct (mint_spec _ _ _ _ _ E2) as [Hk [Hs2 [Hst2 [Hnr2 [Hnk2 [Ho2 Hl2]]]]]].
+  assert (I1 : Inv s1) by (rewrite Hs1; apply Inv_fresh_rid; assumption).
+  assert (I2 : Inv s2) by (rewrite Hs2; apply Inv_mint; [assumption|lia]).
+  cbn [fst]. apply Inv_log_add; [apply (Inv_set_par s2 _ I2)|].
+  intros e [<-|[]]. cbn. rewrite Ho2, Hk. apply upd_eq.
+Qed.
+
+Lemma Inv_device_authorize cfg s auth bc sc au : Inv s -> Inv (fst (device_authorize cfg s auth bc sc au)).
+Proof.
+  intros I. unfold device_authorize.
+  destruct auth as [c|]; [|assumption]. destruct (clients s c) as [cl|]; [|assumption].
+  repeat match goal with |- context [if ?c then fail s _ else _] => destruct c; [assumption|] end.
+  destruct (fresh_rid s) as [rid s1] eqn:E1.
+  destruct (fresh_rid_spec _ _ _ E1) as [Hrid [Hs1 [Hst1 [Hnr1 [Hnk1 [Ho1 Hl1]]]]]].
+  destruct (mint s1 KDevice rid) as [kd s2] eqn:E2.
+  destruct (mint_spec _ _ _ _ _ E2) as [Hkd [Hs2 [Hst2 [Hnr2 [Hnk2 [Ho2 Hl2]]]]]].
+  destruct (mint s2 KUser rid) as [ku s3] eqn:E3.
+  destruct (mint_spec _ _ _ _ _ E3) as [Hku [Hs3 [Hst3 [Hnr3 [Hnk3 [Ho3 Hl3]]]]]].
+  assert (I1 : Inv s1) by (rewrite Hs1; apply Inv_fresh_rid; assumption).
+  assert (I2 : Inv s2) by (rewrite Hs2; apply Inv_mint; [assumption|lia]).
+  assert (I3 : Inv s3) by (rewrite Hs3; apply Inv_mint; [assumption|lia]).
+  cbn [fst]. match goal with |- context [put_device _ kd (0, ?r)] => set (rec := r) end.
+  assert (I4 : Inv (set_store s3 (put_device (st s3) kd (0, rec)))).
+  { apply Inv_put_device_new; [assumption| | | | | |]; rewrite ?Hst3, ?Hst2, ?Hst1; cbn.
+    - rewrite Ho3, Ho2, upd_neq by lia. subst kd. apply upd_eq.
+    - destruct (device (st s) kd) as [[b r]|] eqn:E; [|reflexivity].
+      destruct (inv_owner_fresh s I _ _ _ (inv_owner_device s I _ _ _ E)). lia.
+    - intros k' b' r' H. destruct (inv_owner_fresh s I _ _ _ (inv_owner_device s I _ _ _ H)). lia.
+    - intros k' r' H. destruct (inv_access_fresh s _ _ I H). lia.
+    - intros k' b' r' H. destruct (inv_refresh_fresh s _ _ _ I H). lia.
+    - intros k' b' r' H. destruct (inv_code_fresh s _ _ _ I H). lia. }
+  apply Inv_log_add; [exact I4|].
+  intros e [<-|[<-|[]]]; cbn.
+  - rewrite Ho3, Ho2, upd_neq by lia. subst kd. apply upd_eq.
+  - rewrite Ho3. subst ku. apply upd_eq.
+Qed.
+
+Lemma Inv_decide cfg s dev acc g ga sub : Inv s -> Inv (fst (decide cfg s dev acc g ga sub)).
+Proof.
+  intros I. unfold decide.
+  destruct (key_of s dev) as [k|]; [|assumption].
+  destruct (device (st s) k) as [[b r]|] eqn:Ed; [|assumption].
+  destruct (expired _ _ _ _); [assumption|].
+  cbn [fst]. eapply Inv_put_device_update; [assumption|exact Ed|reflexivity].
+Qed.
+
+Lemma Inv_device_poll cfg s auth dev : Inv s -> Inv (fst (device_poll cfg s auth dev)).
+Proof.
+  intros I. unfold device_poll.
+  destruct auth as [c|]; [|assumption]. destruct (clients s c) as [cl|]; [|assumption].
+  destruct (negb (args_has (cl_grants cl) _)); [assumption|].
+  destruct (key_of s dev) as [k|]; [|assumption].
+  destruct (device (st s) k) as [[stt r]|] eqn:Ed; [|assumption].
+  repeat match goal with |- context [if ?c then fail s _ else _] => destruct c; [assumption|] end.
+  match goal with |- context [grant_tokens ?s2 ?stored ?w] =>
+    pose proof (Inv_grant_tokens s2 stored w) as G; destruct (grant_tokens s2 stored w) as [s3 minted] end.
+  cbn [fst] in *. apply G; clear G; cbn.
+  - now apply Inv_delete_device.
+  - exact (proj2 (inv_owner_fresh s I _ _ _ (inv_owner_device s I _ _ _ Ed))).
+  - intros k' r' H Heq. exact (inv_access_device s I _ _ H k stt r Ed (eq_sym Heq)).
+  - intros k' r' H Heq. exact (inv_refresh_device s I _ _ _ H k stt r Ed (eq_sym Heq)).
+  - intros k' r' H Heq. exact (inv_code_device s I _ _ _ H k stt r Ed (eq_sym Heq)).
+  - eapply delete_device_no_device; eassumption.
 Qed.
 
 Lemma Inv_redeem cfg s auth code redirect v vh : Inv s -> Inv (fst (redeem cfg s auth code redirect v vh)).
@@ -210,6 +305,10 @@ Proof.
       exact (inv_refresh_code s I _ _ _ H k r Ec (eq_sym Heq)).
     + cbn [st set_store]. intros k' r' H Heq. apply invalidate_code_active in H as [Hne H]. rewrite Hc1 in H.
       assert (k' = k) by (eapply (inv_code_rid s I); eassumption). contradiction.
+    + cbn [st set_store]. intros k' b' r' H.
+      assert (Hd : device (fst (invalidate_code (st s1) k)) = device (st s))
+        by (unfold invalidate_code; destruct (codes (st s1) k) as [[? ?]|]; cbn; destruct Hst as [->|[k0 ->]]; reflexivity).
+      rewrite Hd in H. exact (inv_code_device s I _ _ _ Ec _ _ _ H).
   - (* replay *)
     change (Inv (set_store (set_store s (revoke_access (st s) (r_id r)))
                            (fst (revoke_refresh (st (set_store s (revoke_access (st s) (r_id r)))) (r_id r))))).
@@ -230,6 +329,8 @@ Proof.
     pose proof (Inv_revoke_refresh s (r_id r) I) as Irr.
     pose proof (revoke_refresh_no_active s (r_id r) I) as Hnr.
     pose proof (revoke_refresh_tables (st s) (r_id r)) as [Tc [Ta [Tai [Tri Tp]]]].
+    assert (Td : device (fst (revoke_refresh (st s) (r_id r))) = device (st s)).
+    { unfold revoke_refresh. destruct (rt_idx (st s) (r_id r)) as [k0|]; [destruct (refresh (st s) k0) as [[? ?]|]|]; reflexivity. }
     destruct (revoke_refresh (st s) (r_id r)) as [st1 [e|]]; cbn [fst] in *; [assumption|].
     match goal with |- context [grant_tokens ?s2 ?stored ?w] =>
       pose proof (Inv_grant_tokens s2 stored w) as G; destruct (grant_tokens s2 stored w) as [s3 minted] end.
@@ -241,6 +342,10 @@ Proof.
     + cbn. intros k' r' H. destruct (revoke_access_tables st1 (r_id r)) as [_ [Hr _]]. rewrite Hr in H. eauto.
     + cbn. intros k' r' H. destruct (revoke_access_tables st1 (r_id r)) as [Hc _]. rewrite Hc, Tc in H.
       exact (inv_refresh_code s I _ _ _ Er k' r' H).
+    + cbn. intros k' b' r' H.
+      assert (Hd : device (revoke_access st1 (r_id r)) = device (st s)).
+      { unfold revoke_access. destruct (at_idx st1 (r_id r)); cbn; exact Td. }
+      rewrite Hd in H. exact (inv_refresh_device s I _ _ _ Er _ _ _ H).
   - (* reuse of an inactive refresh token *)
     change (Inv (set_store (set_store (set_store s (delete_refresh (st s) k))
                    (fst (revoke_refresh (st (set_store s (delete_refresh (st s) k))) (r_id r))))
@@ -297,6 +402,11 @@ Proof.
   - now apply Inv_password_flow.
   - now apply Inv_client_credentials_flow.
   - assumption.
+  - now apply Inv_push.
+  - now apply Inv_authorize_par.
+  - now apply Inv_device_authorize.
+  - now apply Inv_decide.
+  - now apply Inv_device_poll.
 Qed.
 
 Theorem Inv_run cfg h : forall s, Inv s -> Inv (run cfg s h).
